@@ -217,7 +217,10 @@ _NYB = "rules designed (DESIGN.md §4) but not built yet in this tree; not claim
 NOT_APPLICABLE = {
     "C07": "every clause compares a reported integer with exact big-integer arithmetic on runtime phase/noise "
            "values; no necessary condition is visible in the shape of the code (DESIGN.md §5)",
-    "C10": _NYB,
+    "C10": "every clause is an integer specification of an RNS routine (conversion error bounds, rounding); the only "
+           "structural necessary condition in reach (converters applied to regions of their own base widths) needs a "
+           "symbolic-dimension engine with base equalities that was not built to a never-alarming standard; a "
+           "prototype was withdrawn (DESIGN.md §9.2, §9.5)",
     "C19": "every clause is about where coefficients land as a function of runtime indices and counts; static "
            "shape rules do not bound them (DESIGN.md §5)",
 }
